@@ -590,6 +590,23 @@ def _good(v):
     return v is not None and not is_unknown(v) and not isinstance(v, tuple)
 
 
+def _undefined(*vals):
+    """reason when a value could not be formed because the path reads a name nothing has bound (NameError / UnboundLocalError at run time)"""
+    for v in vals:
+        if is_unknown(v) and ("is not defined" in v.why or "is not bound on this path" in v.why):
+            return v.why
+    return None
+
+
+def _not_lowered(ctx, instance, where, detail, *vals):
+    """a value the rule needs is unknown: a violation when the code provably crashes there, otherwise an analysis error"""
+    why = _undefined(*vals)
+    if why:
+        ctx.fail(instance, where, {"crash": why})
+    else:
+        ctx.error(instance, where, detail)
+
+
 def _u(v, cfg):
     """where there are no rf equations the whole sent force is its non-rf part"""
     if _good(v) and cfg.get("k", True) and not cfg.get("rf", True):
@@ -951,7 +968,7 @@ def r2c_complex_path(ctx):
                          {"generator": "no store into column i of that partition", "stores": sorted({c["text"] for c in g.cells})})
                 continue
             if not _good(bv) or not _good(gv):
-                ctx.error(f"complex path ({tag}): {what} not lowered", bfn, {"batch": repr(bv), "generator": repr(gv)})
+                _not_lowered(ctx, f"complex path ({tag}): {what} not lowered", bfn, {"batch": repr(bv), "generator": repr(gv)}, gv)
                 continue
             # batch value is expressed on (drb0, vrb0, y-step); bring the elastic one to the same starting point
             bv = bv.subs({"di": F.sym("y0")})
@@ -1048,7 +1065,8 @@ def r3c_complex_addon(ctx):
                          {"add-on": "no store into column i of that partition", "stores": sorted({c["text"] for c in add.cells})})
                 continue
             if inc is None or not _good(p_):
-                ctx.error(f"complex generator add-on ({tag}): {what} not lowered", lp, {"addon": repr(a["value"]) if a else None, "pos": repr(p_)})
+                _not_lowered(ctx, f"complex generator add-on ({tag}): {what} not lowered", lp, {"addon": repr(a["value"]) if a else None, "pos": repr(p_)},
+                             a["value"] if a else None, p_)
                 continue
             want = p_.subs(zero)
             ok = inc.equals(want)
@@ -1078,7 +1096,7 @@ def r3c_complex_addon(ctx):
                 continue
             el, rb, rfv = pos.value("v" if velo else "d", "k"), pos.value("v" if velo else "d", "rb"), pos.value("d", "rf")
             if not _good(got) or not _good(el) or not _good(rb) or not _good(rfv):
-                ctx.error(f"_get_f2x_complex_unc ({tag}): not lowered", fn0, repr(got))
+                _not_lowered(ctx, f"_get_f2x_complex_unc ({tag}): not lowered", fn0, repr(got), got, el, rb, rfv)
                 continue
             # unit add-on force through phi^T: f1 -> phik^T, f1rb -> phir^T; response recovered with phik / phir
             el = el.subs(zero).subs({"f1": F.fn("T", F.sym("phik"))})
@@ -1116,7 +1134,7 @@ def r4_get_f2x(ctx):
                     ctx.fail(f"{tag}: returns the flexibility for real equations of motion", fn, "raises instead")
                     continue
                 if not _good(flex) or not _good(upd):
-                    ctx.error(tag, fn, f"{flex} {upd}")
+                    _not_lowered(ctx, tag, fn, f"{flex} {upd}", flex, upd)
                     continue
                 want = phik * upd.diff("f1") * phik
                 if rf and not velo:
@@ -1154,7 +1172,7 @@ def r4_get_f2x(ctx):
                     ctx.fail(f"{tag}: returns the flexibility for real equations of motion", fn, "raises instead")
                     continue
                 if not _good(flex) or inc is None:
-                    ctx.error(tag, fn, f"{flex} {inc}")
+                    _not_lowered(ctx, tag, fn, f"{flex} {inc}", flex)
                     continue
                 want = phik * inc.diff("f1") * F.fn("T", phik)
                 if rf and not velo:
@@ -1629,13 +1647,13 @@ def _report_typing(ctx, qual, label, bad, checked):
 
 
 RULES = [
-    ("C08-R1", r1_carried_state, 100),
+    ("C08-R1", r1_carried_state, 130),
     ("C08-R2", r2_step_equals_batch, 110),
-    ("C08-R2c", r2c_complex_path, 90),
+    ("C08-R2c", r2c_complex_path, 100),
     ("C08-R3", r3_addon_linear_part, 120),
-    ("C08-R3c", r3c_complex_addon, 80),
+    ("C08-R3c", r3c_complex_addon, 85),
     ("C08-R4", r4_get_f2x, 20),
-    ("C08-R5", r5_typestate, 28),
+    ("C08-R5", r5_typestate, 38),
     ("C08-R6", r6_typing, 120),
     ("C08-R7", r7_constructor_state_is_read_only, 40),
 ]
